@@ -24,9 +24,10 @@ AutoCorrelationTransitionMatrix::AutoCorrelationTransitionMatrix(std::shared_ptr
     addParameter_(new Parameter(prefix + "lambda" + TextTools::toString(i + 1), p, Parameter::PROP_CONSTRAINT_EX));
   }
 
+  // all autocorrelations are equal: the stationary distribution is uniform
   for (size_t i = 0; i < size; ++i)
   {
-    eqFreq_[i] = p;
+    eqFreq_[i] = 1. / static_cast<double>(size);
   }
 }
 
@@ -67,6 +68,17 @@ const Matrix<double>& AutoCorrelationTransitionMatrix::getPij() const
 
 const std::vector<double>& AutoCorrelationTransitionMatrix::getEquilibriumFrequencies() const
 {
+  // the stationary probability of a state is proportional to its mean sojourn time 1 / (1 - lambda)
+  double sum = 0;
+  for (size_t i = 0; i < vAutocorrel_.size(); ++i)
+  {
+    eqFreq_[i] = 1. / (1. - vAutocorrel_[i]);
+    sum += eqFreq_[i];
+  }
+  for (size_t i = 0; i < vAutocorrel_.size(); ++i)
+  {
+    eqFreq_[i] /= sum;
+  }
   return eqFreq_;
 }
 
